@@ -335,4 +335,5 @@ def default_corpus(ctx, big=False):
     corpus = inputs.contemporaneous(ctx.seed, k=3 if q else 10) + inputs.polytomies(ctx.seed, k=1 if q else 3) \
         + inputs.historical(ctx.seed, k=1 if q else 3) + inputs.internal_samples(ctx.seed, k=1 if q else 3)
     corpus += [inputs.flagged(c) for c in corpus if "historical" in c.tags][: 2 if q else 6]
+    corpus += inputs.inferred(ctx.seed, k=1 if q else 3)
     return corpus
